@@ -258,6 +258,15 @@ func runC18(cfg runCfg) error {
 			famTerms = append(famTerms, afTerm(f))
 		}
 		merged := bramble.MergeAllowedFields(fam...)
+		// the operands are role definitions that stay in use: the union may not change them
+		inputsOK := true
+		for k, f := range fam {
+			if afTerm(f) != famTerms[k] {
+				inputsOK = false
+			}
+		}
+		sum.GoOracle = append(sum.GoOracle, oracleResult{Case: name, Component: "prop.union_inputs_untouched", OK: inputsOK,
+			Detail: "MergeAllowedFields changed one of its operands: a later use of that role alone allows more than it was configured with"})
 		var probeTerms []string
 		for _, p := range afPaths(tree) {
 			for _, q := range [][]string{p, append(append([]string{}, p...), "zz"), append(append([]string{}, p...), "__typename")} {
